@@ -6,7 +6,8 @@
 // numeric value.  Grid: every ordered pair and every triple over 12 REAL values (signed zeros, adjacent doubles, 0.1+0.2,
 // infinities as far as the REAL parser yields them, NaN), 9 INT values (64-bit ends, neighbours of 2^53), 7 TEXT values
 // (empty, prefixes, case, non-ASCII) and 4 TIMESTAMP values.
-// Also: a text literal on either side of every TIMESTAMP comparison; PERCENTILE / MIN / MAX shown by one engine on every
+// Also: a text literal on either side of every TIMESTAMP comparison, also for timestamps with a fraction of a second (5 instants within two seconds x 3 literals,
+// GROUP BY / DISTINCT / WHERE over them); PERCENTILE / MIN / MAX shown by one engine on every
 // refresh against the batch value, over sequences of 3..4 lines of a 6-line pool.
 include!("verif_grid_common.rs");
 include!("verif_grid_qcommon.rs");
@@ -106,6 +107,35 @@ fn verif_grid() {
                 }
             });
         } }
+    }
+    // ... also for timestamps with a fraction of a second (a seven-part TIMESTAMP column): they compare by instant, not by their whole second
+    {
+        let def = "CREATE TABLE t(line = '^ts=(\\\\d+)-(\\\\d+)-(\\\\d+) (\\\\d+):(\\\\d+):(\\\\d+)\\\\.(\\\\d+)$', line[1], line[2], line[3], line[4], line[5], line[6], line[7] => ts TIMESTAMP);";
+        let rows: [(&str, i64); 5] = [("2020-01-01 00:00:00.000", 0), ("2020-01-01 00:00:00.001", 1), ("2020-01-01 00:00:00.500", 500), ("2020-01-01 00:00:00.999", 999), ("2020-01-01 00:00:01.000", 1000)];
+        let literals: [(&str, i64); 3] = [("2020-01-01 00:00:00", 0), ("2020-01-01 00:00:01", 1000), ("2019-12-31 23:59:59", -1000)];
+        for (i, (lit, lit_ms)) in literals.iter().enumerate() { for (j, (row, row_ms)) in rows.iter().enumerate() {
+            g.case(&format!("timestamp-fraction-text-sides-{}-{}", i, j), move || {
+                let line = format!("ts={}", row);
+                let query = format!("SELECT ts < '{l}' AS a, '{l}' > ts AS b, ts > '{l}' AS c, '{l}' < ts AS d, ts = '{l}' AS e, '{l}' = ts AS f, ts <= '{l}' AS g, '{l}' >= ts AS h, ts != '{l}' AS n FROM t", l = lit);
+                match q(def, &query, &[&line]) {
+                    Outcome::Lines(l, _) => { if l.len() != 1 { return Err(format!("{:?}", l)); } let v: J = serde_json::from_str(&l[0]).unwrap();
+                        let want = (row_ms < lit_ms, row_ms > lit_ms, row_ms == lit_ms, row_ms <= lit_ms);
+                        if v["a"] == v["b"] && v["c"] == v["d"] && v["e"] == v["f"] && v["g"] == v["h"] && v["a"] == J::Bool(want.0) && v["c"] == J::Bool(want.1) && v["e"] == J::Bool(want.2) && v["g"] == J::Bool(want.3) && v["n"] == J::Bool(!want.2) { Ok(()) }
+                        else { Err(format!("the timestamp {} against the literal '{}': {} printed {}", row, lit, query, l[0])) } }
+                    other => Err(format!("{:?}", other)),
+                }
+            });
+        } }
+        // and the consumers agree: two timestamps of one second are two groups, two DISTINCT rows, and a literal selects at most one of them
+        g.case("timestamp-fraction-consumers", move || {
+            let lines: Vec<String> = rows.iter().map(|(r, _)| format!("ts={}", r)).collect();
+            let refs: Vec<&str> = lines.iter().map(|s| s.as_str()).collect();
+            for (query, want) in [("SELECT ts, COUNT(*) AS n FROM t GROUP BY ts", 5usize), ("SELECT DISTINCT ts FROM t", 5), ("SELECT ts FROM t WHERE ts = '2020-01-01 00:00:00'", 1), ("SELECT ts FROM t WHERE ts >= '2020-01-01 00:00:00' AND ts < '2020-01-01 00:00:01'", 4),
+                                  ("SELECT COUNT(DISTINCT ts) AS d FROM t HAVING COUNT(DISTINCT ts) = 5", 1)] {
+                match q(def, query, &refs) { Outcome::Lines(l, _) => if l.len() != want { return Err(format!("{} over five timestamps within one second (.000 .001 .500 .999 and the next second) printed {} rows: {:?}; {} expected", query, l.len(), l, want)); }, other => return Err(format!("{}: {:?}", query, other)) }
+            }
+            Ok(())
+        });
     }
     // PERCENTILE ranks by the same order on every refresh: one engine fed line by line shows the batch value each time
     {
